@@ -157,6 +157,11 @@ def build_catalogue():
         lines += "    refPositionsFile%d %s\n" % (k + 1, fn)
     V["vp"] = dict(text=_var("vp", "  gspath {\n" + _grp("atoms", [3, 5, 8, 11, 23]) + lines + "  }\n", -1, 2, 0.05),
                    atoms=[3, 5, 8, 11, 23], tf=False)
+    # vq: a named atom group used a second time in the same variable through atomsOfGroup (shares atoms 1, 2 with va / vd / vk):
+    # the copies hold their own references to the engine's atoms
+    V["vq"] = dict(text=_var("vq", "  distanceZ {\n    main {\n      name gq\n      atomNumbers 1 2 23\n    }\n" + _grp("ref", [24]) +
+                             "    ref2 {\n      atomsOfGroup gq\n    }\n  }\n", -12, 12, 0.5),
+                   atoms=[1, 2, 23, 24], tf=True)
     for n, v in V.items():
         v.setdefault("scalar", True)
         v.setdefault("periodic", False)
@@ -171,7 +176,7 @@ VARS = build_catalogue()
 
 # centre of a restraint for each variable (inside the range visited)
 CENTER = {"vk": "5.0", "va": "3.0", "vb": "80.0", "vc": "20.0", "vd": "4.0", "ve": "0.5", "vf": "3.5", "vg": "2.5",
-          "vh": "(1.0, 0.0, 0.0, 0.0)", "vi": "12.0", "vj": "1.5", "vp": "0.5"}
+          "vh": "(1.0, 0.0, 0.0, 0.0)", "vi": "12.0", "vj": "1.5", "vp": "0.5", "vq": "2.0"}
 
 # bias kinds: keyword, number of variables, memoryless?, needs (predicate on the variable dict), body
 MEMORYLESS = ("harmonic", "walls", "linear")
